@@ -778,6 +778,12 @@ def race_family(prop, secs_quick=8, secs_thorough=90):
             fr.failures.append({"kind": "monitor", "key": "trailers-not-published-at-terminal-result",
                                 "what": f"{stats['ok_without_trailers']} of {stats.get('ok')} successful calls had no trailers right after the terminal result (Recv=EOF / Invoke returned)",
                                 "replay_lines": [json.dumps(stats), "free-running stress: Trailer() / grpc.Trailer target read immediately after RecvMsg returned io.EOF or Invoke returned nil"]})
+        if prop in ("C15", "C10") and int(stats.get("serve_running_after_stop", 0)) > 0:
+            fr.failures.append({"kind": "monitor", "key": "serve-running-after-stop",
+                                "what": f"{stats['serve_running_after_stop']} time(s) a Serve call that raced with Stop was still running 3 s after Stop had returned "
+                                        f"(admitted after Stop closed the instances it knew)",
+                                "replay_lines": [json.dumps(stats), "free-running stress: 1-3 Serve calls and one Stop (sometimes after GracefulStop) started within 400 us of each other on a fresh "
+                                                                    "ReverseTunnelServer; once Stop has returned every Serve call must have returned (refused, or served and ended)"]})
         fr.summary = {"stats": stats, "races": len(races), "seconds": secs}
         return fr
     return fam
